@@ -224,6 +224,9 @@ func opTags(ops []Op, add func(string)) {
 		case "copy", "merge", "conv":
 			if o.Via != "" {
 				add("via:" + o.Via)
+				if !whiteboxAvailable {
+					add("whitebox:unavailable") // built without the group verif_c08wb: compose's wrappers are not reached
+				}
 			}
 		case "array":
 			if o.Spare == 1 {
